@@ -791,3 +791,68 @@ func (c *Check) ruleNextMessageIDIsStoredValue(rule string) {
 	}
 	c.Min(rule, "returns of NextMessageID", n, 1)
 }
+
+// ---------------------------------------------------------------------------------------------
+// E15 / C08.R17: no slice of a range variable outlives its iteration
+
+// loopVarSliceEscapes: sites where a slice of an array-typed loop variable is stored away inside the
+// loop while the variable is one object for the whole loop (language version of the module below
+// go1.22: the builder allocates it outside the loop): every stored slice aliases the same array and
+// ends up showing the last element.
+func loopVarSliceEscapes(fn *ssa.Function) []ssa.Instruction {
+	var out []ssa.Instruction
+	for _, b := range fn.Blocks {
+		for _, in := range b.Instrs {
+			sl, ok := in.(*ssa.Slice)
+			if !ok {
+				continue
+			}
+			al, ok := sl.X.(*ssa.Alloc)
+			if !ok {
+				continue
+			}
+			if _, isArr := al.Type().Underlying().(*types.Pointer).Elem().Underlying().(*types.Array); !isArr {
+				continue
+			}
+			hs := enclosingLoops(b)
+			if len(hs) == 0 {
+				continue
+			}
+			body := loopBody(hs[0])
+			if body[al.Block()] {
+				continue // a variable of the iteration
+			}
+			written := false
+			for _, r := range *al.Referrers() {
+				if st, isSt := r.(*ssa.Store); isSt && st.Addr == ssa.Value(al) && body[st.Block()] {
+					written = true
+				}
+			}
+			if !written {
+				continue
+			}
+			for _, r := range *sl.Referrers() {
+				if st, isSt := r.(*ssa.Store); isSt && st.Val == ssa.Value(sl) {
+					out = append(out, st)
+				}
+			}
+		}
+	}
+	return out
+}
+
+func (c *Check) ruleLoopVarSliceStaysInIteration(rule string, fns []*ssa.Function) {
+	n := 0
+	for _, fn := range fns {
+		if fn == nil || fn.Blocks == nil {
+			continue
+		}
+		n++
+		for i, st := range loopVarSliceEscapes(fn) {
+			c.Bad(rule, fmt.Sprintf("%s#loop-variable-slice-stays-in-iteration@%d", c.P.Key(fn), i+1), st.Pos(), "alias escape", nil,
+				"%s stores a slice of an array-typed loop variable away inside the loop; with the module's language version (below go1.22) the variable is one object for the whole loop, so every stored slice aliases it and all of them end up showing the last element (an address with several key hashes is subscribed as its last hash several times, the others never)", c.P.Key(fn))
+			c.Touch(fn)
+		}
+	}
+	c.Ok(rule, "scope#loop-variable-slices", token.NoPos, "alias escape", "%d functions examined, no slice of a per-loop variable is stored away", n)
+}
